@@ -75,3 +75,99 @@ Print Assumptions C15_expected_newsvendor_cost.
 Print Assumptions C15_period_cost_pathwise.
 Print Assumptions C15_expected_period_cost.
 Print Assumptions C15_newsvendor_level_minimises_expected_cost.
+
+(* ======================================================================================================================= *)
+From Coq Require Import Permutation.
+From SV Require Import Base.Qx Sim.Model Sim.Serial.
+From SV Require Import Sim.CS Sim.CS_math Sim.CS_run Sim.CS_chain Sim.CS_serial.
+
+(* most upstream stage: IL(t) = S' - D(t-L, t]   (the single-stage theorem inside the chain) *)
+Theorem C15_serial_head_pathwise : forall h p order stages,
+  stages <> [] -> NoDup (map sidx stages) -> Permutation order (map sidx stages) -> Forall (fun x => 0 <= slev x) stages ->
+  forall inputs, inputs_ok stages inputs -> forall n post t, map sidx stages = n :: post -> (t < length inputs)%nat ->
+  gq (nth t (run (NWloc h p order stages) inputs) empty_st) (fIL, n, Ext)
+  == lev stages n - dwin (dfn (map sidx stages) inputs) (lead stages n) t.
+Proof. exact serial_head_pathwise. Qed.
+
+(* Clark-Scarf recursion, echelon form, textbook shape, for every edge q -> n of the chain and EVERY period t:
+   t >= L_n:  IL^e_n(t) = min(S_n, IL^e_q(t - L_n)) - D(t-L_n, t];      t < L_n (warm-up):  IL^e_n(t) = S_n - D[0, t] *)
+Theorem C15_serial_clark_scarf : forall h p order stages,
+  stages <> [] -> NoDup (map sidx stages) -> Permutation order (map sidx stages) -> Forall (fun x => 0 <= slev x) stages ->
+  forall inputs, inputs_ok stages inputs -> forall pre q n post t, map sidx stages = pre ++ q :: n :: post -> (t < length inputs)%nat ->
+  let NW := NWloc h p order stages in let rec := fun t => nth t (run NW inputs) empty_st in
+  let d := dfn (map sidx stages) inputs in let L := lead stages n in let S_n := ech (lev stages) (map sidx stages) n in
+  ((L <= t)%nat -> echelon_il NW (rec t) n == qmin S_n (echelon_il NW (rec (t - L)%nat) q) - qsum_range d (S (t - L)) L) /\
+  ((t < L)%nat -> echelon_il NW (rec t) n == S_n - qsum_range d 0 (S t)).
+Proof. exact serial_clark_scarf. Qed.
+
+(* the same for the most upstream stage (external supplier never short): IL^e(t) = S - D(t-L, t] *)
+Theorem C15_serial_head_echelon : forall h p order stages,
+  stages <> [] -> NoDup (map sidx stages) -> Permutation order (map sidx stages) -> Forall (fun x => 0 <= slev x) stages ->
+  forall inputs, inputs_ok stages inputs -> forall n post t, map sidx stages = n :: post -> (t < length inputs)%nat ->
+  echelon_il (NWloc h p order stages) (nth t (run (NWloc h p order stages) inputs) empty_st) n
+  == ech (lev stages) (map sidx stages) n - dwin (dfn (map sidx stages) inputs) (lead stages n) t.
+Proof. exact serial_head_echelon. Qed.
+
+(* local form: IL_n(t) = S'_n - (IL_q(t - L_n))^- - D(t-L_n, t]: the only coupling is the upstream stage's backorder *)
+Theorem C15_serial_clark_scarf_local : forall h p order stages,
+  stages <> [] -> NoDup (map sidx stages) -> Permutation order (map sidx stages) -> Forall (fun x => 0 <= slev x) stages ->
+  forall inputs, inputs_ok stages inputs -> forall pre q n post t, map sidx stages = pre ++ q :: n :: post -> (t < length inputs)%nat ->
+  (lead stages n <= t)%nat ->
+  gq (nth t (run (NWloc h p order stages) inputs) empty_st) (fIL, n, Ext)
+  == lev stages n - qmax 0 (- gq (nth (t - lead stages n) (run (NWloc h p order stages) inputs) empty_st) (fIL, q, Ext))
+     - qsum_range (dfn (map sidx stages) inputs) (S (t - lead stages n)) (lead stages n).
+Proof. exact serial_clark_scarf_local. Qed.
+
+(* one formula for all t (the start-of-period level ILs q k is the base-stock level at k = 0, so no case split) *)
+Theorem C15_serial_clark_scarf_all_t : forall h p order stages,
+  stages <> [] -> NoDup (map sidx stages) -> Permutation order (map sidx stages) -> Forall (fun x => 0 <= slev x) stages ->
+  forall inputs, inputs_ok stages inputs -> forall pre q n post t, map sidx stages = pre ++ q :: n :: post -> (t < length inputs)%nat ->
+  gq (nth t (run (NWloc h p order stages) inputs) empty_st) (fIL, n, Ext)
+  == lev stages n - qmax 0 (- ILs (base h p order stages) (lev stages) inputs q (S t - lead stages n))
+     - dwin (dfn (map sidx stages) inputs) (lead stages n) t.
+Proof. exact serial_edge_pathwise. Qed.
+
+(* what stage q ships to its successor n in period t: old backorders + demand - new backorders *)
+Theorem C15_serial_shipments : forall h p order stages,
+  stages <> [] -> NoDup (map sidx stages) -> Permutation order (map sidx stages) -> Forall (fun x => 0 <= slev x) stages ->
+  forall inputs, inputs_ok stages inputs -> forall pre q n post t, map sidx stages = pre ++ q :: n :: post -> (t < length inputs)%nat ->
+  gq (nth t (run (NWloc h p order stages) inputs) empty_st) (fOS, q, Nd n)
+  == ship (ILs (base h p order stages) (lev stages) inputs q) (dfn (map sidx stages) inputs) t.
+Proof. exact serial_shipments_pathwise. Qed.
+
+(* all stages, any chain length: the inventory-level trajectories are the executable reference recursion [cs_serial]
+   (Sim/CS.v) evaluated on the demand sequence: a function of the demand history only *)
+Theorem C15_serial_reference : forall h p order stages,
+  stages <> [] -> NoDup (map sidx stages) -> Permutation order (map sidx stages) -> Forall (fun x => 0 <= slev x) stages ->
+  forall inputs, inputs_ok stages inputs -> forall pre n post t, map sidx stages = pre ++ n :: post -> (t < length inputs)%nat ->
+  gq (nth t (run (NWloc h p order stages) inputs) empty_st) (fIL, n, Ext)
+  == nth (length pre) (cs_serial (dfn (map sidx stages) inputs) (map (fun x => (slev x, sslt x)) stages)) (fun _ => 0) (S t).
+Proof. exact serial_chain_reference. Qed.
+
+(* the reference recursion (levels updated period by period through delay lines) has the Clark-Scarf closed form *)
+Theorem C15_cs_closed_form : forall lv L xp d t, 0 <= xp 0%nat ->
+  xrec lv (delay L (ship xp d)) d (S t) == lv - qmax 0 (- xp (S t - L)%nat) - dwin d L t.
+Proof. exact edge_closed. Qed.
+
+(* non-vacuity: 3 stages 7 -> 3 -> 5 (levels 4, 6, 5; lead times 1, 2, 1), demands 3 9 12 2 8 0 15 1: the hypotheses hold,
+   stage 7 is short toward stage 3 in several periods, both arguments of the min are attained, and the executable
+   reference reproduces the three simulated trajectories *)
+Example C15_serial_nonvacuous :
+  ex_stages <> [] /\ NoDup (map sidx ex_stages) /\ Permutation ex_order (map sidx ex_stages) /\ Forall (fun x => 0 <= slev x) ex_stages /\ inputs_ok ex_stages ex_inputs /\
+  map sidx ex_stages = [] ++ 7%N :: 3%N :: [5%N] /\
+  map (fun t => qobs (echelon_il ex_net (ex_rec t) 3%N)) (seq 0 8) = [(8, 1); (-1, 1); (-10, 1); (-8, 1); (-7, 1); (3, 1); (-8, 1); (-5, 1)]%Z /\
+  map (fun t => qobs (echelon_il ex_net (ex_rec t) 7%N)) (seq 0 8) = [(12, 1); (6, 1); (3, 1); (13, 1); (7, 1); (15, 1); (0, 1); (14, 1)]%Z /\
+  qobs (qmin (ech (lev ex_stages) (map sidx ex_stages) 3%N) (echelon_il ex_net (ex_rec 1) 7%N) - qsum_range (dfn (map sidx ex_stages) ex_inputs) 2 2) = (-8, 1)%Z /\
+  qobs (qmin (ech (lev ex_stages) (map sidx ex_stages) 3%N) (echelon_il ex_net (ex_rec 3) 7%N) - qsum_range (dfn (map sidx ex_stages) ex_inputs) 4 2) = (3, 1)%Z /\
+  map (fun x => map (fun t => qobs (x (S t))) (seq 0 8)) (cs_serial (dfun ex_dems) [(4, 1%nat); (6, 2%nat); (5, 1%nat)])
+  = map (fun n => map (fun t => qobs (gq (ex_rec t) (fIL, n, Ext))) (seq 0 8)) [7%N; 3%N; 5%N].
+Proof. exact serial_cs_nonvacuous. Qed.
+
+Print Assumptions C15_serial_head_pathwise.
+Print Assumptions C15_serial_clark_scarf.
+Print Assumptions C15_serial_head_echelon.
+Print Assumptions C15_serial_clark_scarf_local.
+Print Assumptions C15_serial_clark_scarf_all_t.
+Print Assumptions C15_serial_shipments.
+Print Assumptions C15_serial_reference.
+Print Assumptions C15_cs_closed_form.
